@@ -110,9 +110,7 @@ def check_variant(ctx, k, kind, bound):
         if k == "k_cavr_vol":
             # every element fetched for the copy must lie wholly inside the sandbox, whatever the pointer slot holds at each fetch
             adv = q.user.get("adv") or []
-            el = [(a, n_) for (a, n_, v_) in adv if n_ == 4 and not (symex.is_conc(symex.simp(a)) and False)]
-            el = [(a, n_) for (a, n_) in el if "cell" not in str(symex.simp(a - p))[:0] ]
-            reads = [a for (a, n_) in el if str(symex.simp(a)) != str(symex.simp(p))]
+            reads = [a for (a, n_, v_) in adv if n_ == 4 and not z3.eq(symex.simp(a), symex.simp(p))]
             if reads:
                 ctx.require(q, z3.And(*[z3.And(z3.UGE(a, base), z3.ULE(zext(a - base, 128) + 4, BV(SIZE, 128))) for a in reads]),
                             "each element read by a range copy lies wholly inside the sandbox even if the sandbox rewrites the pointer slot between rlbox's fetches")
